@@ -95,6 +95,14 @@ def run_convert(case, ctx):
             tree = ctx.lib("call", lambda: NeurolucidaAscToSwc()(path))
         ctx.check(os.path.abspath(tree.source) == os.path.abspath(path), "convert/source-is-the-file", f"{tree.source}")
     _compare(ctx, "convert", tree, want, want_type, text)
+    if len(text) > 16384 and any(k == "comment" for k, _v in toks):
+        ctx.cls("annotated-document>16KB")
+    if case["via"] != "stream" and len(want) <= 400:
+        # the same file converted again (and again): every conversion is a function of the file
+        for rep in (2, 3):
+            again = ctx.lib("convert", NeurolucidaAscToSwc.convert, path)
+            _compare(ctx, f"convert-again[{rep}]", again, want, want_type, text)
+        ctx.cls("same-file-converted-three-times")
     # colours and comments do not change the result
     toks2, nodes2 = gen_asc.tokens_and_table(doc, strip_decor=True)
     if len(toks2) != len(toks):
@@ -244,7 +252,8 @@ SUBCHECKS = [
     Sub("convert", convert_strategy, run_convert, quick=1000, thorough=12000, shards_quick=8,
         required={"material-after-inner-split": 60, "empty-non-final-alternative": 60, "empty-first-alternative": 40,
                   "branch>=1000-points": 10, "nesting>=8": 10, "via:convert": 60, "via:call": 60,
-                  "has-colours-or-comments": 100, "comment-right-after-a-split-opens": 15, "comment-right-after-a-bar": 10, "label:AXON": 100, "label:DENDRITE": 100}),
+                  "has-colours-or-comments": 100, "comment-right-after-a-split-opens": 15, "comment-right-after-a-bar": 10, "annotated-document>16KB": 15,
+                  "same-file-converted-three-times": 100, "label:AXON": 100, "label:DENDRITE": 100}),
     Sub("truncate", truncate_strategy, run_truncate, quick=400, thorough=5000, shards_quick=8,
         required={"cut:last-bracket-only": 200, "cut:inside": 500, "cut:char": 200}),
     Sub("corrupt", corrupt_strategy, run_corrupt, quick=900, thorough=9000, shards_quick=4,
